@@ -629,6 +629,20 @@ class Inliner:
                                 return True
                     # 2. statement form: the call is the whole value of the statement
                     site = _site_kind(s, target)
+                    if site is None and isinstance(s, (ast.Assign, ast.Return)) and isinstance(s.value, ast.IfExp) and any(
+                        n is target for br in (s.value.body, s.value.orelse) for n in ast.walk(br)
+                    ):
+                        # the call sits in one arm of a conditional value: write the conditional as a statement
+                        # (the canonicaliser folds it back once the body is in place)
+                        ie = s.value
+                        if isinstance(s, ast.Return):
+                            a_: ast.stmt = _loc(ast.Return(value=ie.body), s)
+                            b_: ast.stmt = _loc(ast.Return(value=ie.orelse), s)
+                        else:
+                            a_ = _loc(ast.Assign(targets=copy.deepcopy(s.targets), value=ie.body), s)
+                            b_ = _loc(ast.Assign(targets=copy.deepcopy(s.targets), value=ie.orelse), s)
+                        blk[i] = _loc(ast.If(test=ie.test, body=[a_], orelse=[b_]), s)
+                        return True
                     if site is None:
                         # nested in a larger expression: bind it to a temporary first (S9 undoes this
                         # once the body is in place), if nothing with effects is evaluated before it
